@@ -174,6 +174,27 @@ func c20History(c *Ctx, ops []string) {
 			wparts = append(wparts, Hx([]byte(w)))
 		}
 	}
+	defined, opt := map[string]bool{}, map[string]bool{}
+	if _, base := ac.Trie.PrefixAll(""); len(base) > 0 { // words a new Completion starts with, if any
+		for _, w := range base {
+			opt[w] = true
+		}
+	}
+	wholeIndex := func(i int) {
+		_, got := ac.Trie.PrefixAll("")
+		have := map[string]bool{}
+		for _, w := range got {
+			have[w] = true
+			if !set[w] && !opt[w] {
+				c.Fail("index-has-undefined-word:history", "HIST "+histKey(ops[:i+1]), fmt.Sprintf("the index holds %q, which was neither inserted nor defined", w))
+			}
+		}
+		for w := range set {
+			if !have[w] {
+				c.Fail("index-missing-defined-word:history", "HIST "+histKey(ops[:i+1]), fmt.Sprintf("the index does not hold %q (inserted / recorded by a top-level definition); it holds %q", w, got))
+			}
+		}
+	}
 	for i, op := range ops {
 		c.Eval()
 		arg := op[1:]
@@ -210,8 +231,17 @@ func c20History(c *Ctx, ops []string) {
 				c.Count("history-definition-rejected")
 				continue
 			}
-			addWord(name + suffix)
-			addWord(name)
+			if defined[name] {
+				// a re-definition goes through the update path, which records nothing; a word it MAY add is tolerated
+				opt[name+suffix] = true
+			} else {
+				defined[name] = true
+				addWord(name + suffix)
+				addWord(name)
+			}
+			// round 11: the index as a whole is the set of words inserted / defined so far (asking only for the completed line
+			// hid a definition that recorded `name` but not `name(`: the line offered is the same)
+			wholeIndex(i)
 			continue
 		}
 		if op[0] == 'I' {
@@ -265,6 +295,7 @@ func c20History(c *Ctx, ops []string) {
 		}
 		c.Case("TRIE "+wl+" T:"+Hx([]byte(arg)), obs)
 	}
+	wholeIndex(len(ops) - 1)
 	c.Count(fmt.Sprintf("history-steps=%d", len(ops)))
 }
 
